@@ -19,7 +19,7 @@ from simgriffe.seams import ListingSeam, World
 EXTS = list(cpy.EXT_SUFFIXES)  # e.g. .cpython-312-x86_64-linux-gnu.so, .abi3.so, .so
 PYC_TAG = f".{__import__('sys').implementation.cache_tag}.pyc"
 TOP_NAMES = ["pkg", "ns"]
-SUB_NAMES = ["a", "b", "_p"]
+SUB_NAMES = ["a", "b", "_p", "ñ"]
 PKGUTIL_INIT = "__path__ = __import__('pkgutil').extend_path(__path__, __name__)\n"
 PKGRES_INIT = "__import__('pkg_resources').declare_namespace(__name__)\n"
 # the spellings found in the wild: one-liners, with a leading docstring/comment, and the try/except idiom documented
@@ -230,6 +230,8 @@ def generate(rng, opts):
     if rng.random() < 0.5:
         rng.shuffle(sp_order)
     return {
+        # entries of the search path that do not exist, are plain files, or appear twice are legal (sys.path has them)
+        "odd_paths": rng.sample(["missing", "dup", "file"], rng.choice([0, 0, 0, 1, 2])),
         "sp_order": sp_order,
         "world": {"dirs": dirs, "n_listed": n_listed},
         "target": target,
@@ -475,6 +477,17 @@ def execute(plan, ctx):
         order = [i for i in plan.get("sp_order", range(world["n_listed"])) if i < world["n_listed"]]
         order += [i for i in range(world["n_listed"]) if i not in order]
         sps = [w.sp_dirs[i] for i in order]
+        for k, odd in enumerate(plan.get("odd_paths", [])):
+            pos = (k * 7 + len(sps)) % (len(sps) + 1)
+            if odd == "missing":
+                sps.insert(pos, os.path.join(w.root, "does-not-exist"))
+            elif odd == "dup":
+                sps.insert(pos, sps[0])
+            else:
+                fpath = os.path.join(w.root, "a-file.txt")
+                with open(fpath, "w") as fh:
+                    fh.write("not a directory\n")
+                sps.insert(pos, fpath)
         oracle_sps = sps + [d for d in w.sp_dirs if d not in sps]
         target = plan["target"]
         results = []
@@ -606,6 +619,8 @@ def shrink_candidates(plan):
             yield {**plan, "world": {**world, "dirs": dirs[:i] + [nf] + dirs[i + 1 :]}}
     if plan["inspection"]:
         yield {**plan, "inspection": False}
+    if plan.get("odd_paths"):
+        yield {**plan, "odd_paths": []}
     if plan.get("sp_order") and plan["sp_order"] != sorted(plan["sp_order"]):
         yield {**plan, "sp_order": sorted(plan["sp_order"])}
 
